@@ -277,7 +277,38 @@ def check_remove_predicate(ctx, f, rep, rule):
                 if clo[0] == 'agg' and clo[1] == 'closure':
                     pred = f.fn(clo[2])
     if pred is None:
-        rep.anchor_missing(rule, 'position() predicate of remove_if_down')
+        # no position() closure: the test is written inline in a loop over the records -
+        # `for (pos, m) in inner.iter().enumerate() { if m.id == *id && m.state == Down { return Some(swap_remove(pos)) } }`
+        n = 0
+        good = True
+        for p in ctx.paths(f, rb, 'none'):
+            calls = {c['id']: c for c in p.calls()}
+            for i, e in enumerate(p.events):
+                if e['kind'] != 'call' or not e['res'].endswith('::swap_remove'):
+                    continue
+                n += 1
+                nx = [k for k in range(i) if p.events[k]['kind'] == 'call' and p.events[k]['res'].endswith('Iterator>::next')]
+                if not nx:
+                    good = False
+                    continue
+                item = ('call', p.events[nx[-1]]['id'])
+                of_item = lambda v: q.mentions(v, lambda y: y == item)
+                id_eq = down = None
+                for c in p.events[nx[-1]:i]:
+                    if c['kind'] != 'cond':
+                        continue
+                    es = q.eq_sides(c['expr'])
+                    if es and any(x[0] == 'load' and q.field_path(x[1])[1][-1:] == ['id'] and of_item(x) for x in es[1:]) and \
+                            any(x == ('load', ('deref', ('param', 0, 2)), 0) or q.is_param(x, 2) for x in es[1:]):
+                        id_eq = (q.cond_truth(c) == es[0])
+                    vs = q.variant_test(f, c, lambda x: x[0] == 'load' and q.field_path(x[1])[1][-1:] == ['state'] and of_item(x))
+                    if vs is not None:
+                        down = True if vs == {'Down'} else (False if 'Down' not in vs else down)
+                good = good and id_eq is True and down is True and of_item(e['args'][1])
+        rep.check(good and n >= 1, rule, rb.nname, 'removal predicate is `id == given && state == Down` (tested inline on the '
+                  'record that is then removed)', construct='remove-predicate')
+        if n == 0:
+            rep.anchor_missing(rule, 'removal site (swap_remove) of remove_if_down')
         return
     ps = ctx.paths(f, pred, 'small')
     good = bool(ps)
